@@ -69,3 +69,155 @@ pub fn run(w: &[&str]) -> String {
     }
     out.join(";")
 }
+
+// ---- C16: snapshot at step k, continue vs restore-and-continue ---------------------------------
+fn mk(imr0: u8, ten: bool, mti: i32, sti: i32, main: &[u8], handler: &[u8]) -> CoreRuntime {
+    let mut rt = CoreRuntime::new();
+    rt.load_rom(main, MAIN as usize);
+    rt.load_rom(handler, HANDLER as usize);
+    rt.load_rom(&HANDLER.to_le_bytes()[..3], 0xFFFFA);
+    rt.state.set_reg(RegName::PC, MAIN);
+    rt.state.set_reg(RegName::S, STACK);
+    rt.state.set_reg(RegName::U, 0xB8000);
+    *rt.timer = TimerContext::new(ten, mti, sti);
+    rt.memory.write_internal_byte(0xFB, imr0);
+    rt.memory.write_internal_byte(0xFC, 0);
+    rt
+}
+
+fn obs(rt: &CoreRuntime) -> String {
+    format!(
+        "{},{},{},{},{},{},{},{},{},{}",
+        rt.state.pc(),
+        rt.state.get_reg(RegName::BA),
+        rt.state.get_reg(RegName::I),
+        rt.state.get_reg(RegName::S),
+        rt.state.get_reg(RegName::F) & 3,
+        rt.memory.read_internal_byte(0xFB).unwrap_or(0),
+        rt.memory.read_internal_byte(0xFC).unwrap_or(0),
+        rt.timer.in_interrupt as u8,
+        rt.timer.irq_total,
+        (rt.state.is_halted() || rt.state.is_off()) as u8
+    )
+}
+
+fn digest(rt: &CoreRuntime) -> String {
+    // FNV-1a over the RAM window and the internal bytes
+    let mut h: u64 = 0xcbf29ce484222325;
+    let mut feed = |b: u8| {
+        h ^= b as u64;
+        h = h.wrapping_mul(0x100000001b3);
+    };
+    for a in 0xB8000u32..0xC0000u32 {
+        feed(rt.memory.load(a, 8).unwrap_or(0) as u8);
+    }
+    for o in 0..0x100u32 {
+        feed(rt.memory.read_internal_byte(o).unwrap_or(0));
+    }
+    format!("{h:016x}")
+}
+
+fn run_steps(rt: &mut CoreRuntime, events: &[(usize, String)], start: usize, n: usize, out: &mut Vec<String>) {
+    for k in start..start + n {
+        for (ek, kind) in events {
+            if *ek == k && kind == "onk" {
+                rt.press_on_key();
+            }
+        }
+        if let Err(e) = rt.step(1) {
+            out.push(format!("ERR:{}", format!("{e:?}").replace([' ', ';', ',', '|'], "_").chars().take(40).collect::<String>()));
+            return;
+        }
+        out.push(obs(rt));
+    }
+}
+
+/// snap <imr0> <timer_en> <mti> <sti> <mainhex> <handlerhex> <k> <m> <events>
+pub fn snap(w: &[&str]) -> String {
+    let imr0 = w[0].parse::<u8>().unwrap();
+    let ten = w[1] != "0";
+    let mti = w[2].parse::<i32>().unwrap();
+    let sti = w[3].parse::<i32>().unwrap();
+    let main = hex(w[4]);
+    let handler = hex(w[5]);
+    let k = w[6].parse::<usize>().unwrap();
+    let m = w[7].parse::<usize>().unwrap();
+    let mut events: Vec<(usize, String)> = vec![];
+    if w.len() > 8 && w[8] != "-" {
+        for t in w[8].split(',') {
+            let mut it = t.split(':');
+            let kk = it.next().unwrap().parse::<usize>().unwrap();
+            events.push((kk, it.next().unwrap().to_string()));
+        }
+    }
+    let mut a = mk(imr0, ten, mti, sti, &main, &handler);
+    let mut pre = vec![];
+    run_steps(&mut a, &events, 0, k, &mut pre);
+    let dir = std::env::var("VERIF_TMP").unwrap_or_else(|_| ".".to_string());
+    let path = std::path::PathBuf::from(dir).join(format!("snap-{}-{}.pcsnap", std::process::id(), k));
+    let mut b = mk(0, false, 0, 0, &main, &handler);
+    let res = a.save_snapshot(&path).and_then(|_| b.load_snapshot(&path));
+    let _ = std::fs::remove_file(&path);
+    if let Err(e) = res {
+        return format!("SNAPERR {}", format!("{e:?}").replace(' ', "_").chars().take(80).collect::<String>());
+    }
+    let (at_a, at_b) = (obs(&a), obs(&b));
+    let (mut ta, mut tb) = (vec![], vec![]);
+    run_steps(&mut a, &events, k, m, &mut ta);
+    run_steps(&mut b, &events, k, m, &mut tb);
+    let mut diffs: Vec<String> = vec![];
+    for addr in 0xB8000u32..0xC0000u32 {
+        let (x, y) = (a.memory.load(addr, 8).unwrap_or(0), b.memory.load(addr, 8).unwrap_or(0));
+        if x != y && diffs.len() < 6 {
+            diffs.push(format!("{addr:#x}:{x}/{y}"));
+        }
+    }
+    for o in 0..0x100u32 {
+        let (x, y) = (a.memory.read_internal_byte(o).unwrap_or(0), b.memory.read_internal_byte(o).unwrap_or(0));
+        if x != y && diffs.len() < 6 {
+            diffs.push(format!("imem{o:#x}:{x}/{y}"));
+        }
+    }
+    format!("AT {} | RESTORED {} | A {} | B {} | DA {} | DB {} | DIFF {}", at_a, at_b, ta.join(";"), tb.join(";"), digest(&a), digest(&b), if diffs.is_empty() { "-".to_string() } else { diffs.join(",") })
+}
+
+/// snapsave <imr0> <timer_en> <mti> <sti> <mainhex> <handlerhex> <k> <path> <events>: run k steps, save a bundle at <path>, print the state
+pub fn snapsave(w: &[&str]) -> String {
+    let imr0 = w[0].parse::<u8>().unwrap();
+    let ten = w[1] != "0";
+    let mti = w[2].parse::<i32>().unwrap();
+    let sti = w[3].parse::<i32>().unwrap();
+    let main = hex(w[4]);
+    let handler = hex(w[5]);
+    let k = w[6].parse::<usize>().unwrap();
+    let path = std::path::PathBuf::from(w[7]);
+    let mut events: Vec<(usize, String)> = vec![];
+    if w.len() > 8 && w[8] != "-" {
+        for t in w[8].split(',') {
+            let mut it = t.split(':');
+            let kk = it.next().unwrap().parse::<usize>().unwrap();
+            events.push((kk, it.next().unwrap().to_string()));
+        }
+    }
+    let mut a = mk(imr0, ten, mti, sti, &main, &handler);
+    let mut pre = vec![];
+    run_steps(&mut a, &events, 0, k, &mut pre);
+    match a.save_snapshot(&path) {
+        Ok(()) => format!("SAVED {}", obs(&a)),
+        Err(e) => format!("SNAPERR {}", format!("{e:?}").replace(' ', "_").chars().take(80).collect::<String>()),
+    }
+}
+
+/// snapload <path> <mainhex> <handlerhex>: load a bundle (written by either implementation) into a fresh CoreRuntime, print the state
+pub fn snapload(w: &[&str]) -> String {
+    let path = std::path::PathBuf::from(w[0]);
+    let main = hex(w[1]);
+    let handler = hex(w[2]);
+    let mut b = mk(0, false, 0, 0, &main, &handler);
+    let res = b.load_snapshot(&path);
+    let _ = std::fs::remove_file(&path);
+    match res {
+        Ok(()) => format!("LOADED {}", obs(&b)),
+        Err(e) => format!("SNAPERR {}", format!("{e:?}").replace(' ', "_").chars().take(80).collect::<String>()),
+    }
+}
